@@ -1,0 +1,11 @@
+//go:build verif
+
+package webserver
+
+// Exports for the C09 (token scope, window and permissions) correspondence
+// driver.  Add-only.
+
+// VerifTokenCheckGlobalAdmin is checkGlobalAdminToken.
+func VerifTokenCheckGlobalAdmin(tok string) (bool, error) {
+	return checkGlobalAdminToken(tok)
+}
